@@ -41,7 +41,7 @@ Print Assumptions C07_endpoint_total_refuted_before_fix.
 
 (* T2 classification *)
 Theorem C07_parse_error : forall pok ms call,
-  handle_json fixed pok ms call ParseFail = (OBytes (error_doc None E_PARSE), []).
+  handle_json fixed pok ms call ParseFail = (OBytes (error_doc None E_PARSE JNull), []).
 Proof. exact parse_error_lemma. Qed.
 Print Assumptions C07_parse_error.
 
@@ -51,7 +51,7 @@ Print Assumptions C07_validate_spec.
 
 Theorem C07_invalid_request : forall pok ms call j,
   (forall l, j <> JArr l) -> (forall rq, validate pok j <> VOk rq) ->
-  handle_json fixed pok ms call (Parsed j) = (OBytes (error_doc None E_INVALID), []).
+  handle_json fixed pok ms call (Parsed j) = (OBytes (error_doc None E_INVALID d_text), []).
 Proof. exact invalid_request_lemma. Qed.
 Print Assumptions C07_invalid_request.
 
@@ -85,8 +85,8 @@ Theorem C07_request : forall pok ms call j rq i,
   validate pok j = VOk rq -> r_id rq = Some i ->
   handle_json fixed pok ms call (Parsed j) =
   match get_method ms (r_method rq) with
-  | TNotFound => (OBytes (error_doc (Some i) E_NOT_FOUND), [])
-  | TPlain => (OBytes (error_doc (Some i) E_PARAMS), [])
+  | TNotFound => (OBytes (error_doc (Some i) E_NOT_FOUND d_text), [])
+  | TPlain => (OBytes (error_doc (Some i) E_PARAMS d_not_callable), [])
   | TCall e => (OBytes (wire (mkResp (Some i) (payload_of (call [] e (r_params rq))))), [e])
   end.
 Proof. exact request_lemma. Qed.
@@ -117,7 +117,7 @@ Print Assumptions C07_id_echo_refuted_nonfinite.
 
 (* T3 batch shape *)
 Theorem C07_empty_batch : forall pok ms call,
-  handle_json fixed pok ms call (Parsed (JArr [])) = (OBytes (error_doc None E_INVALID), []).
+  handle_json fixed pok ms call (Parsed (JArr [])) = (OBytes (error_doc None E_INVALID d_text), []).
 Proof. exact empty_batch_lemma. Qed.
 Print Assumptions C07_empty_batch.
 
@@ -196,6 +196,11 @@ Theorem C07_described_is_callable : forall ms t d k,
 Proof. exact described_resolves_lemma. Qed.
 Print Assumptions C07_described_is_callable.
 
+(* an error object is well formed whatever data the failing method supplied *)
+Theorem C07_error_object_any_data : forall c d, error_ok_b (error_obj c d) = true.
+Proof. exact error_obj_ok. Qed.
+Print Assumptions C07_error_object_any_data.
+
 (* conformance to the JSON-RPC 2.0 response grammar: full statement refuted by a
    non-finite float id (open finding), proved for inputs whose float ids are finite *)
 Theorem C07_conformant_refuted :
@@ -214,8 +219,8 @@ Theorem C07_nonvacuous_batch :
          (Parsed (JArr [req "o.pub" (Some (JInt 1)); req "o.pub" None; JInt 5; req "o.uns" (Some (JStr (lit "b")));
                         req "o.pub" (Some (JInt 2))])))
   = OBytes (JArr [wire (mkResp (Some (IdInt 1)) (PResult (JInt 0)));
-                  wire (mkResp None (PError E_INVALID));
-                  wire (mkResp (Some (IdStr (lit "b"))) (PError E_APP));
+                  wire (mkResp None (PError E_INVALID d_text));
+                  wire (mkResp (Some (IdStr (lit "b"))) PBad);
                   wire (mkResp (Some (IdInt 2)) (PResult (JInt 3)))]).
 Proof. exact nv_batch. Qed.
 Print Assumptions C07_nonvacuous_batch.
